@@ -47,6 +47,9 @@ CHECKS = {
     'C18': ('symbolic execution of the real comparison dunders / ordinal() on exact binary64 proxies (z3 QF_FP, RNE) + per-path equivalence with the ordinal specification; foreign operands via lazy kind proxy; sorted() paths',
             'For each of the five rating classes and each of < <= > >= == != over ALL finite doubles mu, sigma: result <=> the corresponding comparison of mu-3*sigma (== : both fields equal); ordinal(z) = mu - z*sigma for symbolic z; foreign operands refused with ValueError / unequal; sorted() of 3 (4) ratings is ordinal-monotone on every path.',
             'Trusted: z3 FloatingPoint theory as IEEE-754 binary64 = CPython float. No real-number abstraction here.', '6/C18'),
+    'C19': ('differential symbolic execution of the five copies: predictions in one path (z3 term equality), C13 grammar explored per base class with concrete cross-class outcome comparison, BT-part vs BT-full two-run on two-team games; reflective signature check',
+            'Identical prediction terms across the five classes for the listed shapes; identical accept/reject outcome class on every path of the malformed-argument grammar; identical rating rules (compare/hash/copy/defaults); BradleyTerryPart == BradleyTerryFull on all listed two-team shapes and outcomes; same signatures and registry (reflective, not solver).',
+            TRUST, '6/C19'),
     'C20': ('symbolic execution of the real constructors: symbolic values incl. 0/negatives with enumerated None-patterns, lazy kind proxies for create_rating arguments, uuid stub, two-run syntactic identity for restore',
             'rating()/create_rating() store exactly the passed terms (defaults only for None), one fresh id per object; deepcopy keeps mu, sigma, name, id in distinct objects; after a symbolic game, rate() and the three predictions on ratings rebuilt from (mu, sigma) are syntactically identical terms to those on the original objects.',
             TRUST, '6/C20'),
